@@ -574,7 +574,7 @@ func main() {
 			}
 		}
 	}
-	n := f.Count(36, 5000)
+	n := f.Count(36, 300)
 	for i := 0; i < n; i++ {
 		r := gen.Fork(f.Seed, i)
 		fams := genFamilies(r)
@@ -583,6 +583,23 @@ func main() {
 			mut = 3
 		}
 		runSet(i, r, fams, "gen", mut)
+	}
+	// more family sets, Go side only: the valid payload and mutants of it must not panic
+	extra := f.Count(200, 8000)
+	for i := n; i < n+extra; i++ {
+		r := gen.Fork(f.Seed, i)
+		fams := genFamilies(r)
+		for format := 0; format < 3; format++ {
+			o := opts{TypeUnit: r.Bool(), SkipST: r.Bool(), Created: r.Bool(), IgnoreNH: r.Chance(1, 3), KeepClassic: r.Bool()}
+			payload, err := encode(famsFor(fams, format), format, o)
+			if err != nil {
+				continue
+			}
+			goOnly(meta, payload, format, o)
+			for k := 0; k < 4; k++ {
+				goOnly(meta, mutate(r, payload, true), format, o)
+			}
+		}
 	}
 	// arbitrary bytes (Go side only): parsers must return entries or an error
 	nb := f.Count(2000, 200000)
